@@ -19,7 +19,9 @@ def token_literals():
 IDENTS = ['a', 'b', 'x1', 'Counter', '_tmp', 'my_var', 'ABC', 'fb', 'Reset', 'IFx', 'END_IFS', 'e5', 'T', 'ms', 'd']
 NUMBERS = ['0', '1', '42', '1_000', '16#FF', '16#1F_A0', '8#17', '2#1010_1', '1.5', '3.14_15', '1.0e5', '2.5E-3', '1.0e+1_0',
            '007', '9_', '1.5_']
-STRINGS = ["'abc'", "''", "'a b'", '"wide"', '""', "'é'", "'日本語'", "'$N'", "'(* not a comment *)'", '"x\'y"']
+STRINGS = ["'abc'", "''", "'a b'", '"wide"', '""', "'é'", "'日本語'", "'$N'", "'(* not a comment *)'", '"x\'y"',
+           # a string literal may span lines (the token regexes are '[^']*' and "[^"]*"): line/column of what follows must move on
+           "'line1\nline2'", '"w1\r\nw2\r\n"', "'\n'", "'a\n\nb é\nc'", '"\n日本\n"']
 COMMENTS = ['(* c *)', '(**)', '(* ( *)', '(* a * b *)', '(* line1\nline2 *)', '(* é ü *)', '(* 日本 *)', '(* a\r\nb\r\nc *)',
             '(* x *) (* y *)', '// c style\n', '// é\r\n', '(* tab\tin *)', '(* **)*)', '(*\n*)', '(* \f *)']
 ADDRESSES = ['%IX1', '%QW2', '%MD3', '%I*', '%Q*', '%ix1', '%IX1.2', '%MB0.0.1']
@@ -86,6 +88,7 @@ class Soup:
                 if '\n' in t[:-1]: feats.add('comment-multiline')
                 if any(ord(c) > 127 for c in t): feats.add('comment-nonascii')
             if k == 'str' and any(ord(c) > 127 for c in t): feats.add('str-nonascii')
+            if k == 'str' and '\n' in t: feats.add('str-multiline')
             parts.append(t)
             if self.rng.random() < 0.6:
                 w = self.rng.choice(WS)
